@@ -544,12 +544,39 @@ Definition first_bad (text : string) (p : pobs) : string :=
     else if has_flag "msgpanic" (po_flags p) then "report-message-panicked"
     else if has_flag "emptyreport" (po_flags p) then "empty-error-report"
     else if has_flag "ioread" (po_flags p) then "parser-issued-read-system-calls"
+    else if has_flag "uncovered" (po_flags p) then "tree-does-not-account-for-the-input"
     else if negb (is_nil (po_flags p)) then "unexpected-flag"
     else match po_tag p with
          | TgOk => "tree-with-error-ranges"
          | _ => "error-report-without-cause"
          end
   end.
+
+(* known finding rational-suffix-dropped: letters written directly after a rational literal (`1/2bool`) are accepted by the
+   parser and appear in no node of the tree (the harness flags a tree that lacks a word of the text as `uncovered`).  The
+   class is decided from the text: a digit, `/`, one or more digits, then a letter. *)
+Definition is_dig (c : ascii) : bool := let n := nat_of_ascii c in Nat.leb 48 n && Nat.leb n 57.
+Definition is_let (c : ascii) : bool :=
+  let n := nat_of_ascii c in (Nat.leb 65 n && Nat.leb n 90) || (Nat.leb 97 n && Nat.leb n 122).
+(* st: 0 = nothing, 1 = after a digit, 2 = after digit '/', 3 = after digit '/' digits *)
+Fixpoint rat_suffix_from (st : nat) (s : string) : bool :=
+  match s with
+  | EmptyString => false
+  | String c r =>
+      match st with
+      | 3 => if is_let c then true
+             else if is_dig c then rat_suffix_from 3 r
+             else rat_suffix_from 0 r
+      | 2 => if is_dig c then rat_suffix_from 3 r else rat_suffix_from 0 r
+      | 1 => if Ascii.eqb c "/" then rat_suffix_from 2 r
+             else if is_dig c then rat_suffix_from 1 r else rat_suffix_from 0 r
+      | _ => if is_dig c then rat_suffix_from 1 r else rat_suffix_from 0 r
+      end
+  end.
+Definition kf_rat_suffix (text : string) : bool := rat_suffix_from 0 text.
+Definition drop_uncovered (p : pobs) : pobs :=
+  PO (po_tag p) (po_same p) (po_causes p) (po_annots p) (po_nlines p) (po_lens p) (po_widths p)
+     (filter (fun f => negb (String.eqb f "uncovered")) (po_flags p)) (po_hook p).
 
 Definition judge_parse (text : string) (o : robs) : sx :=
   match o with
@@ -562,6 +589,7 @@ Definition judge_parse (text : string) (o : robs) : sx :=
   | ROther => v_bad "unreadable-observation" (Ax "ok-or-err")
   | RParse p =>
       if obs_okb text p then v_ok (match po_tag p with TgOk => "tree" | _ => "report" end)
+      else if kf_rat_suffix text && obs_okb text (drop_uncovered p) then v_kf "rational-suffix-dropped"
       else v_bad (first_bad text p) (Ax "ok-or-err-in-range")
   end.
 
